@@ -392,30 +392,39 @@ impl KeyValueStore {
         };
         #[cfg(blue_verif)]
         verif_events::point("w_unlocked", 0, 0, 0);
-        let mut log_batch = sst::log::WriteBatch::default();
-        for entry in batch.entries.iter() {
-            log_batch.insert(KeyValueRef::from(entry))?;
-        }
-        self.poison(log.append(log_batch))?;
-        #[cfg(blue_verif)]
-        verif_events::point("w_logged", 0, 0, 0);
-        self.poison(memtable.write(&mut batch))?;
+        // NOTE:  A write that fails from here on (an empty or oversized batch, an I/O error of the
+        // log) must still leave the wait list the way a successful one does: under the store mutex,
+        // and waking the new head.  Returning early dropped the guard without either, and a writer
+        // already asleep behind the failed one was never woken; every later write then queued up
+        // behind that sleeper.
+        let result = (|| {
+            let mut log_batch = sst::log::WriteBatch::default();
+            for entry in batch.entries.iter() {
+                log_batch.insert(KeyValueRef::from(entry))?;
+            }
+            self.poison(log.append(log_batch))?;
+            #[cfg(blue_verif)]
+            verif_events::point("w_logged", 0, 0, 0);
+            self.poison(memtable.write(&mut batch))
+        })();
         drop(memtable);
         drop(log);
         #[cfg(blue_verif)]
         verif_events::point("w_dropped", 0, 0, 0);
         let mut state = self.state.lock().unwrap();
-        while !wait_guard.is_head() {
-            state = wait_guard.naked_wait(state);
+        if result.is_ok() {
+            while !wait_guard.is_head() {
+                state = wait_guard.naked_wait(state);
+            }
+            // Writers leave the wait list in the order they were given their sequence numbers, so
+            // every write up to and including this one is now complete: publish it to readers.
+            state.visible_seq_no = seq_no;
         }
-        // Writers leave the wait list in the order they were given their sequence numbers, so every
-        // write up to and including this one is now complete: publish it to readers.
-        state.visible_seq_no = seq_no;
         drop(wait_guard);
         #[cfg(blue_verif)]
         verif_events::event("w_done", 0, 0, 0);
         self.wait_list.notify_head();
-        Ok(())
+        result
     }
 
     pub fn load(&self, key: &[u8], is_tombstone: &mut bool) -> Result<Option<Vec<u8>>, SError> {
